@@ -40,7 +40,7 @@ FAULTS = [
 
 
 def budget(tier):
-    return {"examples": 1600 if tier == "quick" else 60000}
+    return {"examples": 1600 if tier == "quick" else 60000, "fuzz_runs": 0 if tier == "quick" else 20000}
 
 
 # ----------------------------------------------------------------------------- generation
